@@ -11,6 +11,17 @@ def run(pid, path):
         import proto_checks
         proto_checks.run_scripts(pid, "replay", p["script"], p["seed"], p["cfg"])
         return
+    if kind == "atoms":
+        import proto_checks
+        d = os.path.join(WORK, "C14_run")
+        os.makedirs(d, exist_ok=True)
+        sp, tp, ap = os.path.join(d, "replay.script.ndjson"), os.path.join(d, "replay.proto.ndjson"), os.path.join(d, "replay.atoms.ndjson")
+        proto_checks.write_script(sp, p["script"])
+        harness(["proto", "--script", sp, "--out", tp, "--atoms-out", ap, "--seed", p["seed"]])
+        v = validate_trace("Trace_Atoms", "Trace_Atoms.cfg", ap, name="trace_C14_replay")
+        if not v["accepted"]:
+            raise Violation(pid, "atoms trace rejected by Trace_Atoms", p)
+        return
     if kind == "revpair":
         import proto_checks
         tp = os.path.join(WORK, "C05_run", "replay.revpair.ndjson")
